@@ -192,6 +192,24 @@ def run(rep):
                     ok = True
                     why = "folded by " + sink["fn"]
                 rep.check(ok, "HASHITER", key, node["sp"], "hash iteration is order-insensitive", why)
+    SAFE_FOREIGN = ("Clone::clone", "Default::default", "Serialize::serialize", "Deserialize::deserialize", "Lazy::<T>::get", "Debug::fmt", "fmt::Arguments", "mem::drop", "Deref::deref", "Box::<T>::new", "Option::<T>::Some")
+    for name, f in sorted(F.fns.items()):
+        if f.thir is None or not f.sp.startswith(ENGINE_FILES):
+            continue
+        if name.startswith("<") and ("Clone" in name or "Debug" in name or "Serialize" in name) and "visit_map" not in name:
+            continue
+        for n in walk(f.body):
+            if n.get("k") != "Call" or not n.get("fn") or n.get("local") or n.get("exp"):
+                continue
+            fn = n["fn"]
+            if "HashMap" in fn or "HashSet" in fn or "hash_map" in fn or "hash_set" in fn or fn.endswith(SAFE_FOREIGN) or "IntoIterator::into_iter" in fn:
+                continue
+            for a in n["args"]:
+                t = peel(a).get("ty", "") if peel(a).get("k") in ("Var", "Field") else ""
+                if re.search(r"^(&(mut )?)?std::collections::(HashMap|HashSet)<", t):
+                    nsites += 1
+                    rep.bad("HASHITER", "HASHITER/%s/handed-to/%s" % (name, fn.split("::")[-2] + "::" + fn.split("::")[-1]), n["sp"],
+                            "a hash container is not handed to code outside the crate that may iterate it", "%s receives a %s" % (fn, t[:50]))
     rep.ok("HASHITER", "HASHITER/sites", "engine", "%d hash-container iteration sites in engine code" % nsites)
     rep.floor("HASHITER", 4)
 
